@@ -5,9 +5,13 @@ TmOps == {"add", "sub", "matmul", "mul_tm", "floordiv_tm", "l2g", "g2l", "distan
           "tmInterpMidpoint", "closeLinearGap", "closeArcGap", "IKPath", "poseError", "geometricError", "twistToGoal", "lookAt",
           "inv", "copy", "tmctor", "abs", "T", "gTM", "gTAA", "gRot", "gPos", "getQuat", "adjoint", "exp6", "approx",
           "mul_scalar", "rmul_scalar", "div_scalar", "add_scalar", "sub_scalar", "floordiv_scalar", "matmul_array", "add_array6",
-          "sub_array6", "tripleUnit", "mirror", "planeFromThreePoints", "getUnitVec", "angleBetween"}
+          "sub_array6", "tripleUnit", "mirror", "planeFromThreePoints", "getUnitVec", "angleBetween",
+          \* neutral-element operands (identity fast paths must not hand back the operand itself)
+          "add_zero", "sub_zero", "mul_one", "rmul_one", "div_one", "add_zero_array"}
 SwOps == {"add", "sub", "mul_scalar", "rmul_scalar", "div_scalar", "abs", "copy", "getData", "flatten", "reshape", "cross", "dot",
-          "add_array6", "sub_array6", "rsub_array6", "add_scalar", "sub_scalar", "matmul_obj", "getitem_scalar"}
+          "add_array6", "sub_array6", "rsub_array6", "add_scalar", "sub_scalar", "matmul_obj", "getitem_scalar",
+          "radd_zero", "radd_zero_float", "sum_builtin", "add_zero", "sub_zero", "mul_one", "rmul_one", "div_one", "radd_scalar",
+          "rsub_scalar", "radd_array6", "add_zero_array"}
 WrOps == SwOps \cup {"getForce", "getMoment"}
 MCOps == [f \in Fams |-> IF f = "tm" THEN TmOps ELSE IF f = "screw" THEN SwOps ELSE WrOps]
 MCRoutes == {"setitem", "arrays", "both"}
